@@ -650,14 +650,14 @@ class ParserStub:
 
     def __init__(self, world: World):
         self.world = world
-        self.specs: List[Tuple[Tuple[str, ...], Dict[str, Any]]] = []
+        self.specs: List[Tuple[Tuple[str, ...], Dict[str, Any], Optional[int]]] = []
 
     def add_argument(self, *names, **kw):
         if not names or not all(isinstance(x, str) for x in names) or set(kw) - self._KW:
             raise NotConst(f"add_argument form not modelled: {names} {sorted(kw)}")
         if kw.get("action") not in (None, "store", "store_true", "store_false"):
             raise NotConst(f"argparse action {kw.get('action')!r} not modelled")
-        self.specs.append((names, kw))
+        self.specs.append((names, kw, self.world.line))
 
     def add_mutually_exclusive_group(self, required=False):
         return self
@@ -670,7 +670,7 @@ class ParserStub:
             raise NotConst("parse_args(<explicit list>)")
         ns = NamespaceStub()
         given = dict(self.world.argv)
-        for names, kw in self.specs:
+        for names, kw, line in self.specs:
             positional = not names[0].startswith("-")
             long = [x for x in names if x.startswith("--")]
             dest = kw.get("dest") or (names[0] if positional else (long[0] if long else names[0]).lstrip("-")).replace("-", "_")
@@ -687,6 +687,9 @@ class ParserStub:
                     if kw.get("choices") is not None and raw not in kw["choices"]:
                         self.error(f"argument {names[0]}: invalid choice")
                     val = ty(raw) if ty is not None else raw
+                    if ty is not None and (type(val) is not type(raw) or val != raw):
+                        # the parser hands the program something else than the text on the command line
+                        self.world.events.append(("converted", hit[0], raw, val, line, getattr(ty, "__name__", type(ty).__name__)))
             else:
                 if kw.get("required"):
                     self.error(f"the following arguments are required: {names[0]}")
@@ -736,6 +739,26 @@ class SysStub:
 # ---------------------------------------------------------------------------------------------------------------------
 # evaluator: BlockEval + with / while / raise / try-as / calls of module functions / keywords / builtin methods
 # ---------------------------------------------------------------------------------------------------------------------
+def _arbitrary(x) -> str:
+    import hashlib
+
+    return hashlib.md5(repr(x).encode("utf-8", "replace")).hexdigest()
+
+
+class HSet(set):
+    """A set of the evaluated program.  The language leaves its iteration order open (for str elements it changes with
+    PYTHONHASHSEED); here it is one fixed order that is neither the insertion order nor the sorted order, so that a result
+    which depends on it is the same in every run of the check (deterministic evidence) and visibly not the 'natural' one."""
+
+    def __iter__(self):
+        return iter(sorted(set.__iter__(self), key=_arbitrary))
+
+
+class HFrozenSet(frozenset):
+    def __iter__(self):
+        return iter(sorted(frozenset.__iter__(self), key=_arbitrary))
+
+
 _XB: Dict[str, Any] = {
     "getattr": getattr,
     "hasattr": hasattr,
@@ -751,7 +774,7 @@ _XB: Dict[str, Any] = {
 }
 _XB.update({n: getattr(builtins, n) for n in dir(builtins) if isinstance(getattr(builtins, n), type) and issubclass(getattr(builtins, n), BaseException)})
 _XB.update({n: getattr(builtins, n) for n in ("list", "dict", "tuple", "set", "frozenset", "str", "int", "float", "bool", "bytes", "object")})
-_PLAIN = (str, list, dict, set, tuple, frozenset, bytes, int, float)
+_PLAIN = (str, list, dict, set, tuple, frozenset, bytes, int, float, HSet, HFrozenSet)
 _LAZY = ("zip", "range", "reversed", "enumerate", "filter", "map")  # lazy in the language: evaluated by the real builtin (keywords included), result materialised
 
 
@@ -801,6 +824,14 @@ def _itertools(name: str) -> Optional[Callable]:
 class XFolder(Folder):
     def child(self, extra: Dict[str, Any]) -> "XFolder":
         return XFolder(self.repo, self.module, {**self.local, **extra}, self.cls)
+
+    def fold(self, node: ast.AST) -> Any:
+        v = Folder.fold(self, node)
+        if type(v) is set:
+            return HSet(v)
+        if type(v) is frozenset:
+            return HFrozenSet(v)
+        return v
 
     def _f_Name(self, n):
         if n.id not in self.local and n.id in _XB and _XB[n.id] is not None:
@@ -971,7 +1002,7 @@ class Runtime:
                         v = XFolder(self.repo, M, env).fold(st.value)
                     except Exception:
                         continue
-                    if type(v) not in (list, dict, set):
+                    if type(v) not in (list, dict, set, HSet):
                         continue
                     self.world.globals[tgt.id] = v
                 env[tgt.id] = self.world.globals[tgt.id]
@@ -997,6 +1028,7 @@ class Runtime:
             return r
 
         call._interpreted = True  # type: ignore[attr-defined]
+        call.__name__ = fn.name
         return call
 
     def bind(self, fn: ast.FunctionDef, args: Sequence[Any], kw: Dict[str, Any], env: Dict[str, Any]) -> Dict[str, Any]:
@@ -1129,6 +1161,10 @@ class FuncEval(BlockEval):
             finally:
                 for m in reversed(mgrs):
                     m._exit()
+        elif isinstance(st, ast.If):
+            t = self.fold(st.test)
+            self.rt.world.events.append(("if", st.lineno, bool(t), norm_(st.test)))  # trace for explanations, never for a verdict
+            self._block(st.body if t else st.orelse)
         elif isinstance(st, ast.For):
             it = self.fold(st.iter)
             try:
@@ -1190,6 +1226,7 @@ class FuncEval(BlockEval):
                         raise
                     for h in st.handlers:
                         if self._handler_matches(h, ex):
+                            self.rt.world.events.append(("caught", type(ex).__name__, _scrub(str(ex))[:80], self.rt.world.line, h.lineno, "except" + (" " + norm_(h.type) if h.type is not None else "")))
                             if h.name:
                                 self.env[h.name] = ex
                             self.exc.append(ex)
@@ -1510,11 +1547,11 @@ def _site(fi, line: Optional[int]) -> str:
     return f"{fi.module.relpath}:{line} {fi.qualname}" if line else fi.where
 
 
-def _short(v: Any) -> str:
+def _short(v: Any, limit: int = 90) -> str:
     import re
 
     s = re.sub(r" at 0x[0-9a-fA-F]+", "", re.sub(r"<checks\.c20e\.(\w+) object at 0x[0-9a-fA-F]+>", r"<\1>", repr(v)))
-    return s if len(s) <= 90 else s[:87] + "..."
+    return s if len(s) <= limit else s[: limit - 3] + "..."
 
 
 def _coverage(chk, fi, tree, cov, entered, why) -> None:
@@ -1706,7 +1743,42 @@ CLI_CASES = [
     ("only --replace", {"--category": "cat", "--replace": "a"}, [None, "replace_value"]),
     ("only --values", {"--category": "cat", "--values": "XYZ"}, [None, "replace_value"]),
     ("copy and replace together", {"--category": "cat", "--copy-from": "a", "--copy-to": "b", "--replace": "a", "--values": "XYZ"}, ["copy_from_to", "replace_value", None]),
+    # an option value is text the user chose: it reaches the library as it is.  Representatives on which the usual
+    # "clean-ups" are visible: order other than code-point order, a repeated symbol, capitals, digits, blanks, punctuation
+    ("replace, alphabet not in code-point order", {"--category": "cat", "--replace": "a", "--values": "zYx10b"}, ["replace_value"]),
+    ("replace, alphabet with a repeated symbol", {"--category": "cat", "--replace": "a", "--values": "XYXZ"}, ["replace_value"]),
+    ("replace, alphabet with blanks and punctuation", {"--category": "cat", "--replace": "a", "--values": " A,b;'C\" "}, ["replace_value"]),
+    ("copy, names with capitals, digits, blanks and punctuation", {"--category": " Cat_2.x", "--copy-from": "B_item ", "--copy-to": "a.Item-1"}, ["copy_from_to"]),
+    ("replace, names with capitals, digits, blanks and punctuation", {"--category": "Cat_2.x ", "--replace": " B_item", "--values": "XYZ"}, ["replace_value"]),
 ]
+_CLI_OPTS = {"copy_from_to": ["--category", "--copy-from", "--copy-to"], "replace_value": ["--category", "--replace", "--values"]}
+
+
+def _str_change(raw: Any, val: Any) -> str:
+    """What happened to an option value on its way to the library, in words."""
+    if not isinstance(val, str) or not isinstance(raw, str):
+        return f"a {type(val).__name__} instead of the text"
+    if sorted(raw) == sorted(val):
+        return "the same symbols in another order"
+    if set(raw) == set(val) and len(val) < len(raw):
+        return "repeated symbols removed" + ("" if list(dict.fromkeys(raw)) == list(val) else " and the order changed")
+    if raw.strip() == val:
+        return "surrounding blanks removed"
+    if raw.lower() == val.lower():
+        return "letter case changed"
+    if val in raw:
+        return "shortened"
+    return "another text"
+
+
+def _arg_changes(w: "World", opts: Dict[str, Any]) -> List[Tuple[str, str, str, Any, Any]]:
+    """(library function, option, parameter, given, received) for every option that was given and reaches the library changed."""
+    out = []
+    for name, b, _ in w.lib_calls:
+        for p, n in zip(list(b)[1:4], _CLI_OPTS.get(name, [])):
+            if n in opts and (type(b[p]) is not type(opts[n]) or b[p] != opts[n]):
+                out.append((name, n, p, opts[n], b[p]))
+    return out
 
 
 def check_cli(chk, fi) -> Optional[str]:
@@ -1774,7 +1846,10 @@ def check_cli(chk, fi) -> Optional[str]:
             tr = next((e for e in w.events if e[0] == "truncate" and e[1] == outp), None)
             rd = next((i for i, e in enumerate(w.events) if e[0] == "read" and e[1] == inp), None)
             early = tr is not None and (rd is None or w.events.index(tr) < rd)
-            chk.violation(rule, _site(fi, tr[2]) if early else fi.where, f"{label}: " + _explain_cli(o, w, got, want, before, inp, outp, content, inplace), K(fi, f"{rule}:{tag}"), expected=[_short(x) for x in want], found=_short(got))
+            changed = _arg_changes(w, opts)
+            conv = next((e for e in w.events if e[0] == "converted" and changed and e[1] == changed[0][1]), None)
+            site = _site(fi, tr[2]) if early else (_site(fi, conv[4]) if conv is not None else fi.where)
+            chk.violation(rule, site, f"{label}: " + _explain_cli(o, w, got, want, before, inp, outp, content, inplace, opts), K(fi, f"{rule}:{tag}"), expected=[_brief(x) for x in want], found=_brief(got))
     if why is None:
         miss = uncovered(cov, [f for n, f in funcs.items() if n == fi.qualname or (n in entered and n not in ("copy_from_to", "replace_value"))])
         if miss:
@@ -1784,7 +1859,16 @@ def check_cli(chk, fi) -> Optional[str]:
     return why
 
 
-def _explain_cli(o: Outcome, w: World, got, want, before, inp, outp, content, inplace) -> str:
+def _brief(v: Any) -> str:
+    """A file content for the evidence: the document text inside a library-stub result is named, not spelled out."""
+    import re
+
+    if isinstance(v, str):
+        v = re.sub(r"=(['\"])" + re.escape(MAGIC) + r".*?\\n\1", "=<the text of the input file>", v)
+    return _short(v, 170)
+
+
+def _explain_cli(o: Outcome, w: World, got, want, before, inp, outp, content, inplace, opts: Optional[Dict[str, Any]] = None) -> str:
     ev = w.events
     first = lambda kind, path: next((i for i, e in enumerate(ev) if e[0] == kind and len(e) > 1 and e[1] == path), None)
     tr, rd = first("truncate", outp), first("read", inp)
@@ -1810,6 +1894,12 @@ def _explain_cli(o: Outcome, w: World, got, want, before, inp, outp, content, in
     if tr is not None and rd is not None and tr < rd and not inplace:
         pass
     texts = [c[2] for c in calls]
+    changed = _arg_changes(w, opts or {})
+    if changed and (got in texts or o.kind != "return"):
+        name, n, p, raw, val = changed[0]
+        conv = next((e for e in ev if e[0] == "converted" and e[1] == n), None)
+        how = f" - `add_argument({n!r}, type={conv[5]})` (line {conv[4]}) converts the text while the arguments are parsed" if conv is not None else ""
+        return head + f"option `{n} {raw!r}` reaches {name} as {p}={_short(val)} ({_str_change(raw, val)}){how}: the file written is not what {name} returns for the arguments that were given"
     if got in texts or (isinstance(got, str) and any(t in got for t in texts)):
         if got in texts:
             return head + f"the library is called with other arguments than the command line gives: {_short(got)} (expected {_short(next(x for x in want if x is not None))})"
